@@ -32,10 +32,10 @@
 use std::collections::BTreeMap;
 
 use super::c16::{
-    AField, Answer, AuthState, BIG_BUF, Built, CLOCK_TS, Cfg, DRAFT, Findings, Fld, Handled, KeyEnv, Kind, Local,
-    MAX_DATAGRAM, Opened, Out, RECV_TS, Req, Session, Sync, T_AUTH, T_COOKIE, T_DRAFT, T_PAD, T_REFRESP, T_UID,
-    UPGRADE_TS, Zone, bloom_byte, build, client_ip, find, grammar, key_env, kind_key, make_server, open_nts, run_handle,
-    walk,
+    AField, Answer, AuthState, BIG_BUF, Built, CLOCK_TS, Cfg, DRAFT, Findings, Fld, Handled,
+    KeyEnv, Kind, Local, MAX_DATAGRAM, Opened, Out, RECV_TS, Req, Session, Sync, T_AUTH, T_COOKIE,
+    T_DRAFT, T_PAD, T_REFRESP, T_UID, UPGRADE_TS, Zone, bloom_byte, build, client_ip, find,
+    grammar, key_env, kind_key, make_server, open_nts, run_handle, walk,
 };
 use super::common::{self, Ctx};
 use crate::Server;
@@ -62,7 +62,12 @@ fn baselines(cfg: Cfg, sync: &Sync, keys: &KeyEnv) -> Baselines {
         // that a header byte copied from the request differs between the two (this breaks the
         // authenticator of the NTS ones on purpose: they are the NTS-NAK baselines)
         let garbage: Vec<usize> = if r.ver == 5 {
-            [1usize, 3, 13].into_iter().chain(4..12).chain(16..24).chain(32..48).collect()
+            [1usize, 3, 13]
+                .into_iter()
+                .chain(4..12)
+                .chain(16..24)
+                .chain(32..48)
+                .collect()
         } else {
             [1usize, 3].into_iter().chain(4..24).chain(32..40).collect()
         };
@@ -77,11 +82,13 @@ fn baselines(cfg: Cfg, sync: &Sync, keys: &KeyEnv) -> Baselines {
             server = make_server(cfg, sync, &keys.server);
         }
         if let Ok(Handled {
-            out: Out::Respond(a), ..
+            out: Out::Respond(a),
+            ..
         }) = run_handle(&mut server, client_ip(0), &b.bytes, BIG_BUF)
         {
             if let Ok(w) = walk(&a) {
-                m.entry((w.ver, w.kind())).or_insert_with(|| a[..48].to_vec());
+                m.entry((w.ver, w.kind()))
+                    .or_insert_with(|| a[..48].to_vec());
             }
         }
     }
@@ -107,7 +114,9 @@ fn time32_to_seconds(b: &[u8]) -> f64 {
 }
 
 fn expected_root_delay(sync: &Sync) -> f64 {
-    sync.root_delay_exp.map(|e| 2f64.powi(e as i32)).unwrap_or(0.0)
+    sync.root_delay_exp
+        .map(|e| 2f64.powi(e as i32))
+        .unwrap_or(0.0)
 }
 
 fn expected_root_dispersion(sync: &Sync) -> f64 {
@@ -115,7 +124,14 @@ fn expected_root_dispersion(sync: &Sync) -> f64 {
     (sync.var_base + 16.0 * sync.var_linear).sqrt()
 }
 
-fn check_header(v: &mut Verdicts, ans: &Answer, req: &[u8], upgrade_req: bool, sync: &Sync, base: &Baselines) {
+fn check_header(
+    v: &mut Verdicts,
+    ans: &Answer,
+    req: &[u8],
+    upgrade_req: bool,
+    sync: &Sync,
+    base: &Baselines,
+) {
     let raw = &ans.raw;
     let req_ver = (req[0] >> 3) & 7;
     let kind = ans.kind();
@@ -123,14 +139,28 @@ fn check_header(v: &mut Verdicts, ans: &Answer, req: &[u8], upgrade_req: bool, s
         v.bad("C18:mode", format!("answer mode {}", ans.mode));
     }
     if ans.ver != req_ver {
-        v.bad("C18:version", format!("answer version {} to a version {} request", ans.ver, req_ver));
+        v.bad(
+            "C18:version",
+            format!(
+                "answer version {} to a version {} request",
+                ans.ver, req_ver
+            ),
+        );
     }
     // the echoed identifier
-    let (id_req, id_name) = if req_ver == 5 { (&req[24..32], "client cookie") } else { (&req[40..48], "transmit timestamp") };
+    let (id_req, id_name) = if req_ver == 5 {
+        (&req[24..32], "client cookie")
+    } else {
+        (&req[40..48], "transmit timestamp")
+    };
     if &raw[24..32] != id_req {
         v.bad(
             "C18:origin",
-            format!("answer bytes 24..32 = {} but the request's {id_name} is {}", common::hex(&raw[24..32]), common::hex(id_req)),
+            format!(
+                "answer bytes 24..32 = {} but the request's {id_name} is {}",
+                common::hex(&raw[24..32]),
+                common::hex(id_req)
+            ),
         );
     }
     let baseline = base.get(&(ans.ver, kind));
@@ -139,47 +169,105 @@ fn check_header(v: &mut Verdicts, ans: &Answer, req: &[u8], upgrade_req: bool, s
     match kind {
         Kind::Time => {
             if ans.leap != sync.leap_bits() {
-                v.bad("C18:leap", format!("leap bits {} but the server's leap state is {}", ans.leap, sync.leap_bits()));
+                v.bad(
+                    "C18:leap",
+                    format!(
+                        "leap bits {} but the server's leap state is {}",
+                        ans.leap,
+                        sync.leap_bits()
+                    ),
+                );
             }
             if ans.stratum != sync.stratum {
-                v.bad("C18:stratum", format!("stratum {} but the server's is {}", ans.stratum, sync.stratum));
+                v.bad(
+                    "C18:stratum",
+                    format!(
+                        "stratum {} but the server's is {}",
+                        ans.stratum, sync.stratum
+                    ),
+                );
             }
             if ans.poll != req[2] {
-                v.bad("C18:poll", format!("poll {} but the request's is {}", ans.poll, req[2]));
+                v.bad(
+                    "C18:poll",
+                    format!("poll {} but the request's is {}", ans.poll, req[2]),
+                );
             }
             if raw[3] as i8 != sync.precision_exp {
-                v.bad("C18:precision", format!("precision {} but the server's is {}", raw[3] as i8, sync.precision_exp));
+                v.bad(
+                    "C18:precision",
+                    format!(
+                        "precision {} but the server's is {}",
+                        raw[3] as i8, sync.precision_exp
+                    ),
+                );
             }
             let (delay, disp, tol) = if ans.ver == 5 {
-                (time32_to_seconds(&raw[4..8]), time32_to_seconds(&raw[8..12]), 2f64.powi(-26))
+                (
+                    time32_to_seconds(&raw[4..8]),
+                    time32_to_seconds(&raw[8..12]),
+                    2f64.powi(-26),
+                )
             } else {
-                (short_to_seconds(&raw[4..8]), short_to_seconds(&raw[8..12]), 2f64.powi(-15))
+                (
+                    short_to_seconds(&raw[4..8]),
+                    short_to_seconds(&raw[8..12]),
+                    2f64.powi(-15),
+                )
             };
             if (delay - expected_root_delay(sync)).abs() > tol {
-                v.bad("C18:root-delay", format!("root delay {delay} s but the server's is {} s", expected_root_delay(sync)));
+                v.bad(
+                    "C18:root-delay",
+                    format!(
+                        "root delay {delay} s but the server's is {} s",
+                        expected_root_delay(sync)
+                    ),
+                );
             }
             if (disp - expected_root_dispersion(sync)).abs() > tol {
                 v.bad(
                     "C18:root-dispersion",
-                    format!("root dispersion {disp} s but the server's is {} s", expected_root_dispersion(sync)),
+                    format!(
+                        "root dispersion {disp} s but the server's is {} s",
+                        expected_root_dispersion(sync)
+                    ),
                 );
             }
             if raw[32..40] != RECV_TS.to_be_bytes() {
-                v.bad("C18:receive-timestamp", format!("receive timestamp {} is not the reception time", common::hex(&raw[32..40])));
+                v.bad(
+                    "C18:receive-timestamp",
+                    format!(
+                        "receive timestamp {} is not the reception time",
+                        common::hex(&raw[32..40])
+                    ),
+                );
             }
             if raw[40..48] != CLOCK_TS.to_be_bytes() {
-                v.bad("C18:transmit-timestamp", format!("transmit timestamp {} is not the clock's time", common::hex(&raw[40..48])));
+                v.bad(
+                    "C18:transmit-timestamp",
+                    format!(
+                        "transmit timestamp {} is not the clock's time",
+                        common::hex(&raw[40..48])
+                    ),
+                );
             }
             if ans.ver == 5 {
                 free.extend(12..16); // timescale, era, flags
                 if raw[16..24] == req[16..24] {
-                    v.bad("C18:reflects-request-content", "the request's server-cookie field came back".into());
+                    v.bad(
+                        "C18:reflects-request-content",
+                        "the request's server-cookie field came back".into(),
+                    );
                 }
             } else {
                 if raw[12..16] != sync.refid.to_be_bytes() {
                     v.bad(
                         "C18:reference-id",
-                        format!("reference id {} but the server's is {:08x}", common::hex(&raw[12..16]), sync.refid),
+                        format!(
+                            "reference id {} but the server's is {:08x}",
+                            common::hex(&raw[12..16]),
+                            sync.refid
+                        ),
                     );
                 }
                 let marker_ok = ans.ver == 4 && upgrade_req && &raw[16..24] == UPGRADE_TS;
@@ -192,17 +280,27 @@ fn check_header(v: &mut Verdicts, ans: &Answer, req: &[u8], upgrade_req: bool, s
             if raw[32..40] != [0; 8] || raw[40..48] != [0; 8] {
                 v.bad(
                     "C18:kiss-has-timestamps",
-                    format!("{kind:?} answer carries receive {} transmit {}", common::hex(&raw[32..40]), common::hex(&raw[40..48])),
+                    format!(
+                        "{kind:?} answer carries receive {} transmit {}",
+                        common::hex(&raw[32..40]),
+                        common::hex(&raw[40..48])
+                    ),
                 );
             }
             if kind == Kind::OtherKiss {
-                v.bad("C18:unknown-kiss", format!("stratum 0 answer with code {}", common::hex(&raw[12..16])));
+                v.bad(
+                    "C18:unknown-kiss",
+                    format!("stratum 0 answer with code {}", common::hex(&raw[12..16])),
+                );
             }
             free.push(0);
             free.extend(1..16);
             if ans.ver == 5 {
                 if raw[16..24] == req[16..24] {
-                    v.bad("C18:reflects-request-content", "the request's server-cookie field came back".into());
+                    v.bad(
+                        "C18:reflects-request-content",
+                        "the request's server-cookie field came back".into(),
+                    );
                 }
             } else {
                 free.extend(16..24);
@@ -211,7 +309,11 @@ fn check_header(v: &mut Verdicts, ans: &Answer, req: &[u8], upgrade_req: bool, s
     }
     if let Some(bl) = baseline {
         for i in free {
-            let (a, b) = if i == 0 { (raw[0] & 0xC7, bl[0] & 0xC7) } else { (raw[i], bl[i]) };
+            let (a, b) = if i == 0 {
+                (raw[0] & 0xC7, bl[0] & 0xC7)
+            } else {
+                (raw[i], bl[i])
+            };
             if a != b {
                 v.bad(
                     "C18:header-depends-on-request",
@@ -230,7 +332,10 @@ fn check_header(v: &mut Verdicts, ans: &Answer, req: &[u8], upgrade_req: bool, s
 fn match_uid(body: &[u8], pool: &mut Vec<Option<Vec<u8>>>) -> bool {
     for slot in pool.iter_mut() {
         if let Some(req) = slot {
-            if body.len() >= req.len() && body[..req.len()] == req[..] && body[req.len()..].iter().all(|b| *b == 0) {
+            if body.len() >= req.len()
+                && body[..req.len()] == req[..]
+                && body[req.len()..].iter().all(|b| *b == 0)
+            {
                 *slot = None;
                 return true;
             }
@@ -239,14 +344,36 @@ fn match_uid(body: &[u8], pool: &mut Vec<Option<Vec<u8>>>) -> bool {
     false
 }
 
-fn check_fields(v: &mut Verdicts, ans: &Answer, opened: &Result<Opened, String>, b: &Built, clean: bool) {
-    let mut pool: Vec<Option<Vec<u8>>> = b.uids.iter().map(|(body, _, _)| Some(body.clone())).collect();
-    let mut refpool: Vec<Option<(usize, usize)>> = b.refreqs.iter().map(|(l, o, _, _)| Some((*l, *o))).collect();
+fn check_fields(
+    v: &mut Verdicts,
+    ans: &Answer,
+    opened: &Result<Opened, String>,
+    b: &Built,
+    clean: bool,
+) {
+    let mut pool: Vec<Option<Vec<u8>>> = b
+        .uids
+        .iter()
+        .map(|(body, _, _)| Some(body.clone()))
+        .collect();
+    let mut refpool: Vec<Option<(usize, usize)>> = b
+        .refreqs
+        .iter()
+        .map(|(l, o, _, _)| Some((*l, *o)))
+        .collect();
     let has_auth = ans.fields.iter().any(|f| f.ty == T_AUTH);
     let mut echoed: Vec<Vec<u8>> = vec![];
     let mut one = |v: &mut Verdicts, f: &AField, encrypted: bool| {
         if f.pad.iter().any(|x| *x != 0) {
-            v.bad("C18:padding-not-zero", format!("field {:04x} at {} has non-zero padding {}", f.ty, f.off, common::hex(&f.pad)));
+            v.bad(
+                "C18:padding-not-zero",
+                format!(
+                    "field {:04x} at {} has non-zero padding {}",
+                    f.ty,
+                    f.off,
+                    common::hex(&f.pad)
+                ),
+            );
         }
         match f.ty {
             T_UID if !encrypted => {
@@ -263,7 +390,13 @@ fn check_fields(v: &mut Verdicts, ans: &Answer, opened: &Result<Opened, String>,
                 let mut ok = false;
                 for slot in refpool.iter_mut() {
                     if let Some((l, o)) = slot {
-                        if *l == f.body.len() && *o + *l <= 512 && f.body.iter().enumerate().all(|(i, x)| *x == bloom_byte(*o + i)) {
+                        if *l == f.body.len()
+                            && *o + *l <= 512
+                            && f.body
+                                .iter()
+                                .enumerate()
+                                .all(|(i, x)| *x == bloom_byte(*o + i))
+                        {
                             *slot = None;
                             ok = true;
                             break;
@@ -279,12 +412,21 @@ fn check_fields(v: &mut Verdicts, ans: &Answer, opened: &Result<Opened, String>,
             }
             T_DRAFT if !encrypted && ans.ver == 5 => {
                 if f.body != DRAFT {
-                    v.bad("C18:unexpected-field", format!("draft identification {:?}", String::from_utf8_lossy(&f.body)));
+                    v.bad(
+                        "C18:unexpected-field",
+                        format!(
+                            "draft identification {:?}",
+                            String::from_utf8_lossy(&f.body)
+                        ),
+                    );
                 }
             }
             T_PAD if !encrypted && ans.ver == 5 => {
                 if f.body.iter().any(|x| *x != 0) {
-                    v.bad("C18:padding-not-zero", format!("padding field at {} is not zero", f.off));
+                    v.bad(
+                        "C18:padding-not-zero",
+                        format!("padding field at {} is not zero", f.off),
+                    );
                 }
             }
             T_COOKIE if encrypted => {}
@@ -297,8 +439,16 @@ fn check_fields(v: &mut Verdicts, ans: &Answer, opened: &Result<Opened, String>,
                 }
             }
             ty => v.bad(
-                if encrypted { "C18:unexpected-encrypted-field" } else { "C18:unexpected-field" },
-                format!("field type {ty:04x} ({} bytes, body {}) in the answer", f.declared, common::hex(&f.body[..f.body.len().min(24)])),
+                if encrypted {
+                    "C18:unexpected-encrypted-field"
+                } else {
+                    "C18:unexpected-field"
+                },
+                format!(
+                    "field type {ty:04x} ({} bytes, body {}) in the answer",
+                    f.declared,
+                    common::hex(&f.body[..f.body.len().min(24)])
+                ),
             ),
         }
     };
@@ -312,7 +462,10 @@ fn check_fields(v: &mut Verdicts, ans: &Answer, opened: &Result<Opened, String>,
                     one(v, f, true);
                 }
             }
-            Err(e) => v.bad("C18:unopenable-authenticator", format!("the answer's authenticator cannot be inspected: {e}")),
+            Err(e) => v.bad(
+                "C18:unopenable-authenticator",
+                format!("the answer's authenticator cannot be inspected: {e}"),
+            ),
         }
     }
     // lower bound: identifiers that must have been echoed
@@ -322,10 +475,19 @@ fn check_fields(v: &mut Verdicts, ans: &Answer, opened: &Result<Opened, String>,
             // unauthenticated trailing identifiers are echoed differs by answer type
             let must = matches!(zone, Zone::Pre);
             if must {
-                if let Some(p) = echoed.iter().position(|e| e.len() >= body.len() && e[..body.len()] == body[..]) {
+                if let Some(p) = echoed
+                    .iter()
+                    .position(|e| e.len() >= body.len() && e[..body.len()] == body[..])
+                {
                     echoed.remove(p);
                 } else {
-                    v.bad("C18:uid-echo-missing", format!("unique identifier {} of the request is not echoed", common::hex(body)));
+                    v.bad(
+                        "C18:uid-echo-missing",
+                        format!(
+                            "unique identifier {} of the request is not echoed",
+                            common::hex(body)
+                        ),
+                    );
                 }
             }
         }
@@ -350,10 +512,21 @@ fn check_reflection(v: &mut Verdicts, ans: &Answer, opened: &Result<Opened, Stri
     }
     // the echoed identifier occurs exactly once (at 24..32)
     if b.bytes.len() >= 48 {
-        let id = if (b.bytes[0] >> 3) & 7 == 5 { &b.bytes[24..32] } else { &b.bytes[40..48] };
-        let n = ans.raw.windows(8).filter(|w| *w == id).count() + views.get(1).map(|p| p.windows(8).filter(|w| *w == id).count()).unwrap_or(0);
+        let id = if (b.bytes[0] >> 3) & 7 == 5 {
+            &b.bytes[24..32]
+        } else {
+            &b.bytes[40..48]
+        };
+        let n = ans.raw.windows(8).filter(|w| *w == id).count()
+            + views
+                .get(1)
+                .map(|p| p.windows(8).filter(|w| *w == id).count())
+                .unwrap_or(0);
         if n > 1 {
-            v.bad("C18:reflects-request-content", format!("the request's identifier occurs {n} times in the answer"));
+            v.bad(
+                "C18:reflects-request-content",
+                format!("the request's identifier occurs {n} times in the answer"),
+            );
         }
     }
 }
@@ -390,7 +563,16 @@ fn judge(
     cut: usize,
     full_len: usize,
 ) -> String {
-    let trace = || format!("{};{};k{};{};cut={}", env.cfg.code(), env.sync.code(), env.keys.rotated as u8, req.code(), cut);
+    let trace = || {
+        format!(
+            "{};{};k{};{};cut={}",
+            env.cfg.code(),
+            env.sync.code(),
+            env.keys.rotated as u8,
+            req.code(),
+            cut
+        )
+    };
     let mut inc = |k: &'static str| {
         if let Some(l) = loc.as_deref_mut() {
             l.inc(k);
@@ -400,7 +582,12 @@ fn judge(
     let handled = match run_handle(server, client_ip(0), &b.bytes, BIG_BUF) {
         Ok(h) => h,
         Err(p) => {
-            findings.report("C18:panic", b.bytes.len(), || format!("Server::handle panicked: {p}"), trace);
+            findings.report(
+                "C18:panic",
+                b.bytes.len(),
+                || format!("Server::handle panicked: {p}"),
+                trace,
+            );
             return format!("panic {p}");
         }
     };
@@ -428,14 +615,23 @@ fn judge(
     inc(kind_key(kind));
     let has_auth = ans.fields.iter().any(|f| f.ty == T_AUTH);
     let sess = req.session();
-    let opened = if has_auth { open_nts(&ans, sess.s2c().as_ref()) } else { Err("no authenticator".into()) };
+    let opened = if has_auth {
+        open_nts(&ans, sess.s2c().as_ref())
+    } else {
+        Err("no authenticator".into())
+    };
     if has_auth {
         inc("answers_nts");
     }
-    let mut v = Verdicts {
-        v: vec![],
-    };
-    check_header(&mut v, &ans, &b.bytes, req.upgrade && req.ver == 4, &env.sync, &env.base);
+    let mut v = Verdicts { v: vec![] };
+    check_header(
+        &mut v,
+        &ans,
+        &b.bytes,
+        req.upgrade && req.ver == 4,
+        &env.sync,
+        &env.base,
+    );
     let clean = cut == full_len && is_clean(req, b);
     if clean {
         inc("clean_requests_answered");
@@ -456,15 +652,34 @@ fn judge(
         "{kind:?} v{} {} bytes fields=[{}] inner=[{}] verdicts=[{}]",
         ans.ver,
         raw.len(),
-        ans.fields.iter().map(|f| format!("{:04x}:{}", f.ty, f.declared)).collect::<Vec<_>>().join(","),
-        opened.as_ref().map(|o| o.inner.iter().map(|f| format!("{:04x}:{}", f.ty, f.declared)).collect::<Vec<_>>().join(",")).unwrap_or_default(),
+        ans.fields
+            .iter()
+            .map(|f| format!("{:04x}:{}", f.ty, f.declared))
+            .collect::<Vec<_>>()
+            .join(","),
+        opened
+            .as_ref()
+            .map(|o| o
+                .inner
+                .iter()
+                .map(|f| format!("{:04x}:{}", f.ty, f.declared))
+                .collect::<Vec<_>>()
+                .join(","))
+            .unwrap_or_default(),
         v.v.iter().map(|(c, _)| *c).collect::<Vec<_>>().join(",")
     );
     for (class, msg) in v.v {
         findings.report(
             class,
             b.bytes.len(),
-            || format!("{msg}; request {} = {}; answer = {}", req.code(), common::hex(&b.bytes), common::hex(&raw)),
+            || {
+                format!(
+                    "{msg}; request {} = {}; answer = {}",
+                    req.code(),
+                    common::hex(&b.bytes),
+                    common::hex(&raw)
+                )
+            },
             trace,
         );
     }
@@ -484,7 +699,11 @@ fn all_states() -> Vec<Sync> {
                 v.push(Sync {
                     stratum,
                     leap,
-                    refid: [u32::from_be_bytes(*b"GPS\0"), 0x7F00_0001, u32::from_be_bytes(*b"XNON")][si],
+                    refid: [
+                        u32::from_be_bytes(*b"GPS\0"),
+                        0x7F00_0001,
+                        u32::from_be_bytes(*b"XNON"),
+                    ][si],
                     root_delay_exp,
                     var_base,
                     var_linear,
@@ -497,7 +716,10 @@ fn all_states() -> Vec<Sync> {
 }
 
 fn n_symbols(r: &Req) -> usize {
-    r.fields.iter().filter(|f| !matches!(f, Fld::Draft(true))).count()
+    r.fields
+        .iter()
+        .filter(|f| !matches!(f, Fld::Draft(true)))
+        .count()
 }
 
 fn replay(ctx: &Ctx, trace: &str) -> String {
@@ -506,7 +728,9 @@ fn replay(ctx: &Ctx, trace: &str) -> String {
     if p.len() != 5 {
         return format!("unparseable trace {trace:?}");
     }
-    let (Some(cfg), Some(sync), Some(req)) = (Cfg::parse(p[0]), Sync::parse(p[1]), Req::parse(p[3])) else {
+    let (Some(cfg), Some(sync), Some(req)) =
+        (Cfg::parse(p[0]), Sync::parse(p[1]), Req::parse(p[3]))
+    else {
         return format!("unparseable trace {trace:?}");
     };
     let keys = key_env(p[2] == "k1");
@@ -519,7 +743,11 @@ fn replay(ctx: &Ctx, trace: &str) -> String {
     };
     let full = build(&req, &env.keys);
     let full_len = full.bytes.len().min(MAX_DATAGRAM);
-    let cut: usize = p[4].trim_start_matches("cut=").parse().unwrap_or(usize::MAX).min(full_len);
+    let cut: usize = p[4]
+        .trim_start_matches("cut=")
+        .parse()
+        .unwrap_or(usize::MAX)
+        .min(full_len);
     let b = full.truncated(cut);
     let findings = Findings::new();
     let mut server = make_server(cfg, &sync, &env.keys.server);
@@ -554,7 +782,9 @@ fn check() {
     ctx.set("grammar_requests", reqs.len() as u64);
     let states = all_states();
     ctx.set("sync_states", states.len() as u64);
-    let six: Vec<Sync> = vec![states[4], states[8], states[16], states[24], states[30], states[44]];
+    let six: Vec<Sync> = vec![
+        states[4], states[8], states[16], states[24], states[30], states[44],
+    ];
     // (configuration, state, rotated, max symbols, truncation max symbols [0 = none])
     let mut plan: Vec<(Cfg, Sync, bool, usize, usize)> = vec![];
     for (i, s) in states.iter().enumerate() {
@@ -563,7 +793,13 @@ fn check() {
     for (i, s) in six.iter().enumerate() {
         plan.push((Cfg::Open, *s, i % 2 == 1, 2, 0));
     }
-    plan.push((Cfg::Open, Sync::TYPICAL, true, 3, if thorough { 3 } else { 2 }));
+    plan.push((
+        Cfg::Open,
+        Sync::TYPICAL,
+        true,
+        3,
+        if thorough { 3 } else { 2 },
+    ));
     plan.push((Cfg::Open, Sync::UNSYNC, false, 3, 0));
     plan.push((Cfg::DenyList, Sync::TYPICAL, true, 3, 0));
     plan.push((Cfg::RequireNtsDeny, Sync::TYPICAL, false, 3, 0));
@@ -582,7 +818,12 @@ fn check() {
         common::par_for_with(
             subset.len() as u64,
             32,
-            || (Local::new(&ctx), make_server(env.cfg, &env.sync, &env.keys.server)),
+            || {
+                (
+                    Local::new(&ctx),
+                    make_server(env.cfg, &env.sync, &env.keys.server),
+                )
+            },
             |(loc, server), i| {
                 let req = subset[i as usize];
                 let mut full = build(req, &env.keys);
@@ -593,19 +834,45 @@ fn check() {
                 }
                 let n = full.bytes.len();
                 loc.inc("cases");
-                let cuts: Vec<usize> = if n_symbols(req) <= *trunc_sym && *trunc_sym > 0 { (48..=n).collect() } else { vec![n] };
+                let cuts: Vec<usize> = if n_symbols(req) <= *trunc_sym && *trunc_sym > 0 {
+                    (48..=n).collect()
+                } else {
+                    vec![n]
+                };
                 for cut in cuts {
-                    let b = if cut == n { full.clone() } else { full.truncated(cut) };
+                    let b = if cut == n {
+                        full.clone()
+                    } else {
+                        full.truncated(cut)
+                    };
                     // a request capped by the receive size is not "clean" (its tail is missing)
-                    let obs = judge(&findings, Some(loc), &env, server, req, &b, cut, if capped { usize::MAX } else { n });
+                    let obs = judge(
+                        &findings,
+                        Some(loc),
+                        &env,
+                        server,
+                        req,
+                        &b,
+                        cut,
+                        if capped { usize::MAX } else { n },
+                    );
                     if obs != "ignored" {
-                        loc.distinct(common::hash_of(&(env.cfg.code(), env.sync.code(), req, cut)));
+                        loc.distinct(common::hash_of(&(
+                            env.cfg.code(),
+                            env.sync.code(),
+                            req,
+                            cut,
+                        )));
                     }
                 }
             },
         );
         if ctx.over_budget() && pi + 1 < plan.len() {
-            ctx.cap_hit(&format!("budget reached after {} of {} plan entries", pi + 1, plan.len()));
+            ctx.cap_hit(&format!(
+                "budget reached after {} of {} plan entries",
+                pi + 1,
+                plan.len()
+            ));
             findings.flush(&ctx);
             ctx.exhaustive(false);
             ctx.finish();
@@ -634,7 +901,16 @@ fn check() {
             let r = Req::parse(code).unwrap();
             let b = build(&r, &env.keys);
             let f = Findings::new();
-            let o = judge(&f, None, &env, &mut server, &r, &b, b.bytes.len(), b.bytes.len());
+            let o = judge(
+                &f,
+                None,
+                &env,
+                &mut server,
+                &r,
+                &b,
+                b.bytes.len(),
+                b.bytes.len(),
+            );
             ctx.sample(format!("{code} -> {o}"));
         }
     }
